@@ -25,10 +25,13 @@ class SlicedRun:
         self.trace = []
         self.points = 0
         self.injected_at = None
+        self.after = None
 
-    def run(self, k, inject):
-        '''Returns True if slice point k exists (the requests were injected).'''
+    def run(self, k, inject, after=None):
+        '''Returns True if slice point k exists (the requests were injected).  after(system) is
+        called once the injected burst has been served.'''
         s = self.s
+        self.after = after
         runner = SlicedRunner(s)
         try:
             for ev in self.script:
@@ -73,6 +76,8 @@ class SlicedRun:
                                 break
                             runner.step(others[0])
                         self.trace.append(f'inject@{name}:{self.injected_at[1]}')
+                        if self.after:
+                            self.after(s)
                         continue
                     self.points += 1
                 if runner.step(sj) == 'done':
@@ -86,7 +91,7 @@ class SlicedRun:
 
 
 def enumerate_points(make, script_of, inject, judge, res, label, closing_ticks=10, only_k=None,
-                     max_points=600):
+                     max_points=600, after=None):
     """Runs the scenario once per slice point (fresh system each time).  judge(run) -> list of
     (key, detail).  Returns [(k, key, detail)] for the failing points."""
     found = []
@@ -96,7 +101,7 @@ def enumerate_points(make, script_of, inject, judge, res, label, closing_ticks=1
         s = make()
         try:
             run = SlicedRun(s, script_of(s), closing_ticks=closing_ticks)
-            hit = run.run(k, inject)
+            hit = run.run(k, inject, after)
             if hit:
                 n += 1
                 res.count('sliced_executions')
